@@ -121,6 +121,16 @@ def add_hostile(rng, pr, sc_root):
         os.chmod(os.path.join(d, "ro"), outer_mode)
         added.append("a/protected.task.31 (sub-directories with modes %o/%o)" % (outer_mode, inner_mode))
         pr.unprivileged_gc = True
+    if rng.random() < 0.15 and cli.unprivileged_available():
+        # a manual addition that its owner has closed (private notes, a directory created by a container as another
+        # user): gc cannot look inside - it holds nothing of Conductor's - and still has to do its job everywhere else
+        d = os.path.join(out, rng.choice(["private-notes", "a/private-notes", "zz-closed"]))
+        os.makedirs(d, exist_ok=True)
+        open(os.path.join(d, "todo.txt"), "w").write("x")
+        os.makedirs(os.path.join(d, "plain"), exist_ok=True)
+        os.chmod(d, rng.choice([0o000, 0o444, 0o111]))
+        added.append(os.path.relpath(d, out) + " (closed by its owner)")
+        pr.unprivileged_gc = True
     # symlinks
     outside = os.path.join(sc_root, "outside-%d" % rng.randrange(10 ** 6))
     if rng.random() < 0.7:
